@@ -300,7 +300,8 @@ class Gen:
         self.script[site] = {'rot': [r.choice(TRUTHY + [{'tok': site}]),
                                      r.choice(FALSY),
                                      r.choice(TRUTHY + FALSY)]}
-        if r.random() < 0.3:
+        undef = r.random() < 0.3
+        if undef:
             # now and then the key is not there at all when asked for (a
             # session that has not got it yet), and there the next time
             self.script[site]['rot'].insert(r.randrange(3), {'undef': 1})
@@ -308,7 +309,11 @@ class Gen:
 
         def ref_body():
             b = self.body(depth + 2)
-            if r.random() < 0.7:    # reference inside the body: cached
+            # reference inside the body: cached.  (Not for a key that may be
+            # missing when tested: nothing is cached then, and how often a
+            # plain dtml-var looks at a computing mapping is not C09's
+            # business - benign edit B2 looks twice)
+            if r.random() < 0.7 and not undef:
                 b['n'].append({'k': 'var', 'site': key, 'how': 'name'})
             return b
         nodes = []
